@@ -7,9 +7,34 @@ COMMON_ASSUME = [
     "z3 5.1 answers (sat answers are re-validated by native replay; unsat answers are trusted)",
 ]
 
+STR_STUBS = [
+    "strconv.AppendInt/AppendUint/Itoa on symbolic values: one opaque digit byte, an uninterpreted function of (sign, magnitude); concrete values use the real strconv",
+    "strconv.AppendFloat on symbolic values: 'f' -> one opaque digit; 'e' -> digit 'e' sign and two or three symbolic exponent digits (so the e-0X clean-up runs on symbolic bytes)",
+    "fmt.Sprintf/Sprint/Errorf: one fixed hostile string (quote, control byte, invalid UTF-8)",
+    "time.Time is an abstract (seconds, nanoseconds) pair; AppendFormat yields one opaque letter per (instant, layout); layouts are concrete and free of quote/backslash/control bytes (the property's exclusion)",
+    "net.IP/IPNet/HardwareAddr String(): one opaque byte as a function of the address bytes",
+    "encoding/base64 Encode: output bytes are uninterpreted functions of the input constrained to A-Z",
+    "sync.Pool: LIFO free list per pool (Get pops or calls New)",
+    "InterfaceMarshalFunc: harness stub returning one of four valid JSON fragments or an error (custom marshal output that is invalid JSON is excluded by the property)",
+    "symbolic floating-point arithmetic and int->float conversions are uninterpreted functions; float comparisons and float32->float64 widening are exact bit-vector encodings",
+]
+
 PROPS = {
+    "C01": {
+        "groups": [{"name": "json", "tags": "verif", "run": "^VH_C01_",
+                    "flags": {"gen": True, "harness-timeout": 280},
+                    "quick": {"params": "strlen=1,keylen=0,symkeylen=1,errslice=2,pairs=0"},
+                    "thorough": {"params": "strlen=2,keylen=1,symkeylen=2,errslice=3,pairs=1", "harness-timeout": 2400, "max-paths": 3000000}}],
+        "level": "model_checking",
+        "bounds": {
+            "quick": "one inductive step per exported field method of *Event (gen), Context (gen), *Array (gen) from an arbitrary invariant-satisfying buffer ('{' or '{' X b, X any byte, b any value-end byte); string/[]byte values 1 symbolic byte, keys: concrete key with an escape-needing byte (Str/Int: 1 symbolic byte); slices <= 2 elements ([]error <= 2); every arm of appendFieldList's type switches; error settings varied one at a time (15); whole-line harness varies one of 7 dimensions at a time",
+            "thorough": "as quick with values 2 symbolic bytes, keys 1 symbolic byte everywhere (Str/Int: 2), []error <= 3, whole-line harness varies all pairs of dimensions",
+            "outside": "strings longer than the bound (covered only through the inductive structure of the escaper loop, not proved); RawJSON / custom marshalers with invalid output; time layouts with quote/backslash/control bytes; call-sequence length and nesting depth are unbounded by induction over the stated buffer invariant",
+        },
+        "assumptions": COMMON_ASSUME + STR_STUBS,
+    },
     "C04": {
-        "groups": [{"name": "json", "tags": "verif", "run": "^VH_C04_"}],
+        "groups": [{"name": "json", "tags": "verif", "run": "^VH_C04_", "flags": {"gen": True}}],
         "level": "model_checking",
         "bounds": {
             "levels": "logger level, global level, event level: all 256 int8 values each, symbolic (no bound)",
@@ -18,5 +43,23 @@ PROPS = {
         },
         "assumptions": COMMON_ASSUME + ["os.Exit is a stub that ends the path after running the harness's at-exit assertions",
                                          "sampler is a recording stub with a symbolic answer"],
+    },
+}
+
+# Properties without a check (yet): each with the reason. C07 is not applicable to the technique.
+NOT_APPLICABLE = [
+    {"property_id": "C07", "reason": "heap allocation is decided by the gc compiler's escape analysis, inlining and the runtime, none of which is a function of the SSA semantics a solver-based encoding can see; no bounded SMT query expresses it (DESIGN.md §C07)"},
+]
+
+MANIFEST_TEXT = {
+    "C01": {
+        "level_text": "Bounded model checking of the real code: every exported field method of Event/Context/Array (enumerated from the method sets of the working tree) is executed symbolically for one step from an arbitrary buffer satisfying the representation invariant, and the appended bytes must parse as well-formed members; by induction this covers call sequences and nesting of any length, within the stated bounds on string lengths and slice sizes.",
+        "design_ref": "DESIGN.md §3 C01",
+        "level_note": "Bounds: values 1 symbolic byte in quick (2 in thorough), slices <= 2, settings varied one at a time; trusted: go/ssa, gosym's interpreter (validated per run by native replay of path witnesses with byte-exact buffer comparison), z3 unsat answers, the contract stubs for strconv/time/net/fmt/base64/sync.Pool listed in the evidence file.",
+    },
+    "C04": {
+        "level_text": "Bounded model checking with no bound on the quantified levels: logger, global and event level are three symbolic int8 values; the solver decides the gate and the writer/sampler interaction for all 2^24 combinations; every exported *Event method is run on the nil event with a recording stub for each kind of callback.",
+        "design_ref": "DESIGN.md §3 C04",
+        "level_note": "os.Exit is a stub; at-exit assertions of the Fatal harness cannot be replayed natively and are reported INCONCLUSIVE if they ever fail; the 256 level texts are enumerated (strconv digits are executed concretely).",
     },
 }
